@@ -98,7 +98,7 @@ def JumpsStrict (a : Array UInt8) : Prop :=
 /-- a finished function ends with a RETURN instruction -/
 def EndsInReturn (a : Array UInt8) : Prop := LastAt a a.size OpReturn
 
-theorem jumpsStrict_of_pend {nc : Nat} {a : Array UInt8} (ht : TargetsOK nc a) (hp : PendOK a a.size []) :
+theorem jumpsStrict_of_pend {nc : Lims} {a : Array UInt8} (ht : TargetsOK nc a) (hp : PendOK a a.size []) :
     JumpsStrict a := by
   intro p op hbd hop hj
   rcases Nat.lt_or_ge (readBE a (p + 1) 4) a.size with h | h
@@ -107,7 +107,7 @@ theorem jumpsStrict_of_pend {nc : Nat} {a : Array UInt8} (ht : TargetsOK nc a) (
     simp at this
 
 /-- appending one non-jump instruction behind a stream whose jump targets are boundaries -/
-theorem jumpsStrict_append {nc : Nat} {a a' : Array UInt8} {opb : UInt8} (ht : TargetsOK nc a) (hw : Walk a 0 a.size)
+theorem jumpsStrict_append {nc : Lims} {a a' : Array UInt8} {opb : UInt8} (ht : TargetsOK nc a) (hw : Walk a 0 a.size)
     (hpre : Pre a a') (hsz : a'.size = a.size + 1 + opWidth opb.toNat) (hop : a'[a.size]? = some opb)
     (hnj : isJumpOp opb.toNat = false) (hlt : opb.toNat < numOpcodes) : JumpsStrict a' := by
   intro p op hbd hget hj
